@@ -111,7 +111,7 @@ def hello(version, suites, exts):
 
 SUITE_POOL = (0x002f, 0x1301, 0xeeee, 0x0a0a, 0x00ff, 0x5600, 0x3a4a)   # 0x3a4a: GREASE look-alike (0x?a?a, bytes differ)
 EXT_POOL = ('server_name', 'supported_groups', 'ec_point_formats', 'session_ticket', 'padding', 'unassigned', 'grease',
-            'lookalike')
+            'lookalike', 'pre_shared_key', 'renegotiation_info')   # the last two: kinds implementations like to move
 GROUP_POOL = (29, 23, 0xeeee, 0x1a1a, 0x1a2a)
 PF_POOL = (0, 1, 0xee, 0x0b)
 
@@ -131,6 +131,10 @@ def ext_of(name, groups, pfs):
         return (0xeeee, b'x')
     if name == 'lookalike':
         return (0x4a5a, b'')
+    if name == 'pre_shared_key':
+        return (41, b'\x00\x06\x00\x02id\x00\x00\x00\x00\x00\x04\x03abc')
+    if name == 'renegotiation_info':
+        return (0xff01, b'\x00')
     return (0x2a2a, b'')
 
 
